@@ -30,3 +30,34 @@ pub fn make_row(table_name: &str, names: &[String], values: Vec<Value>) -> Row {
         .collect();
     Row::new(Table::new(table_name.to_string(), columns, false), values)
 }
+
+/// `Column::bitfield` (the `_Columns.Type` word).
+pub fn column_bitfield(column: &Column) -> i32 {
+    column.bitfield()
+}
+
+/// `ColumnBuilder::with_bitfield`.
+pub fn column_with_bitfield(
+    builder: crate::internal::column::ColumnBuilder,
+    type_bits: i32,
+) -> std::io::Result<Column> {
+    builder.with_bitfield(type_bits)
+}
+
+/// `Column::foreign_key`.
+pub fn column_foreign_key(column: &Column) -> Option<(String, i32)> {
+    column.foreign_key().map(|(name, index)| (name.to_string(), index))
+}
+
+/// `Column::is_valid_name`.
+pub fn column_is_valid_name(name: &str) -> bool {
+    Column::is_valid_name(name)
+}
+
+/// `Category::all()` rendered with `as_str`, and `FromStr`.
+pub fn category_names() -> Vec<String> {
+    crate::internal::category::Category::all()
+        .iter()
+        .map(|category| category.as_str().to_string())
+        .collect()
+}
